@@ -137,12 +137,13 @@ variable {E : MW.LedBytes.Env} {e : Lemmas.Ledger.Env} {G : Block}
 
 /-- ONE EVENT on the byte store, from a world whose abstraction satisfies `JP ChainBounds` -/
 theorem stepWB_bounded (Hs : ∀ chain : List Block, HEnv E (e.ctx chain))
-    (hSim : ∀ chain, SimAt (Hs chain) (PdInv (e.ctx chain)) (PfInv (e.ctx chain)))
+    (hSim : ∀ chain, HeightsOK chain → SimAt (Hs chain) (PdInv (e.ctx chain)) (PfInv (e.ctx chain)))
     (hOK : ∀ (N S : List Block) (s : Store) (v : Vol) (b : Block), ChainOK e G N → ChainOK e G S → Inv (e.ctx N) s S →
       v.best = tipMeta S → AMap.get e.known b.id = some b → AllReady e.own (readyWallets s e.wallets) →
       (readyWallets s e.wallets).isEmpty = false → ChainBounds e.p e.own S → ChainBounds e.p e.own N →
       processOK (e.ctx N) (PdInv (e.ctx N)) (PfInv (e.ctx N)) s v b)
-    (hFit : ∀ chain id x, AMap.get e.known id = some x → BlkFit (Hs chain) x)
+    (hFit : ∀ chain, (∀ x ∈ chain, AMap.get e.known x.id = some x) → ∀ id x, AMap.get e.known id = some x →
+      BlkFit (Hs chain) x)
     (w : WorldB) (hC : CanonS E w.bs) (hJ : JP (ChainBounds e.p e.own) e G (absW E w))
     (hN : ChainOK e G w.chain) (hBN : ChainBounds e.p e.own w.chain) (ev : Ev) :
     absW E (stepWB (pbBOf Hs) w ev) = stepW e (absW E w) ev ∧ CanonS E (stepWB (pbBOf Hs) w ev).bs := by
@@ -162,8 +163,8 @@ theorem stepWB_bounded (Hs : ∀ chain : List Block, HEnv E (e.ctx chain))
       have hbest : w.v.best.height < collisionHeight := by
         have : w.v.best = tipMeta S := hv
         rw [this]; exact best_lt_of_bounds hS.good hB
-      obtain ⟨h1, h2, h3⟩ := processBlock_on_bytes_tr (Hs w.chain) (hSim w.chain)
-        (fun x hx => hFit w.chain x.id x (hN.known x hx)) hC hbest (hFit w.chain b.id b hbk) hok
+      obtain ⟨h1, h2, h3⟩ := processBlock_on_bytes_tr (Hs w.chain) (hSim w.chain hN.good.heights)
+        (fun x hx => hFit w.chain hN.known x.id x (hN.known x hx)) hC hbest (hFit w.chain hN.known b.id b hbk) hok
       have e1 : stepWB (pbBOf Hs) w .handle
           = { w with queue := q, bs := (pbBOf Hs w.chain w.bs w.v b).1, v := (pbBOf Hs w.chain w.bs w.v b).2.1 } := by
         simp only [stepWB, hq]
@@ -180,12 +181,13 @@ theorem stepWB_bounded (Hs : ∀ chain : List Block, HEnv E (e.ctx chain))
 
 /-- THE RUN of the concrete handler abstracts to the run of the ledger model -/
 theorem runWB_bounded (EH : EnvHyp e G) (Hs : ∀ chain : List Block, HEnv E (e.ctx chain))
-    (hSim : ∀ chain, SimAt (Hs chain) (PdInv (e.ctx chain)) (PfInv (e.ctx chain)))
+    (hSim : ∀ chain, HeightsOK chain → SimAt (Hs chain) (PdInv (e.ctx chain)) (PfInv (e.ctx chain)))
     (hOK : ∀ (N S : List Block) (s : Store) (v : Vol) (b : Block), ChainOK e G N → ChainOK e G S → Inv (e.ctx N) s S →
       v.best = tipMeta S → AMap.get e.known b.id = some b → AllReady e.own (readyWallets s e.wallets) →
       (readyWallets s e.wallets).isEmpty = false → ChainBounds e.p e.own S → ChainBounds e.p e.own N →
       processOK (e.ctx N) (PdInv (e.ctx N)) (PfInv (e.ctx N)) s v b)
-    (hFit : ∀ chain id x, AMap.get e.known id = some x → BlkFit (Hs chain) x) :
+    (hFit : ∀ chain, (∀ x ∈ chain, AMap.get e.known x.id = some x) → ∀ id x, AMap.get e.known id = some x →
+      BlkFit (Hs chain) x) :
     ∀ (evs : List Ev) (w : WorldB), CanonS E w.bs → JP (ChainBounds e.p e.own) e G (absW E w) →
       (∀ ch ∈ chainsOf e (absW E w) evs, ChainOK e G ch ∧ ChainBounds e.p e.own ch) → (∀ ev ∈ evs, EvOK ev) →
       absW E (runWB (pbBOf Hs) w evs) = runW e (absW E w) evs ∧ CanonS E (runWB (pbBOf Hs) w evs).bs := by
